@@ -333,4 +333,7 @@ pub fn run(ctx: &mut Ctx) {
             c.next();
         }
     });
+    // hidden state: every ordered pair of operation calls on a fresh thread against the lone call (no model involved)
+    let hist_calls = crate::histpairs::calls_ops(false, &|op| { use crate::optable::Op::*; matches!(op, DAndTime | DToTs | SDate | STime | SToOd | ODate | OTime | OToTs | DRebuild | TRebuild | SRebuild | ORebuild | TToDt | IToTime) });
+    crate::histpairs::pairwise(ctx, "C07", "split_combine_rebuild", hist_calls);
 }
